@@ -294,6 +294,35 @@ def register(I):
             return BoxV(v)
         return v
 
+    @reg("TryFrom::try_from", "TryInto::try_into")
+    def try_from_int(I, st, args, info):
+        """integer narrowing / widening conversions: Ok(value) iff the value fits the target type"""
+        v = args[0]
+        dt = _interp.short_type(info.dest_type() or "")
+        m = re.search(r"Result<\s*([ui]\d+|usize|isize)\s*,", dt)
+        q = _interp.short_type(info.path.qself or "").strip()
+        target = m.group(1) if m else (q if info.path.last() == "try_from" and q in _interp.INT_TYPES else None)
+        if target is None or not (isinstance(v, int) or (is_sym(v) and z3.is_bv(v))):
+            r = I.P.resolve_fn(info.path)
+            if r is not None:
+                return I.call_fn(r[0], args, st, dict(r[1]))
+            raise Unsupported("TryFrom for %s" % (dt or q))
+        w = _interp.INT_TYPES[target]
+        if target[0] == "i":
+            raise Unsupported("TryFrom into a signed type")
+        err = res_err(Adt("TryFromIntError", None, [()]))
+        if isinstance(v, int):
+            return res_ok(v) if 0 <= v < (1 << w) else err
+        if v.size() <= w:
+            return res_ok(z3.ZeroExt(w - v.size(), v) if v.size() < w else v)
+        fits = z3.ULT(v, z3.BitVecVal(1 << w, v.size()))
+        return Outcomes([(fits, res_ok(z3.Extract(w - 1, 0, v))), (z3.Not(fits), err)])
+
+    @reg("mem::discriminant", "::discriminant", "discriminant")
+    def mem_discriminant(I, st, args, info):
+        v = deref_all(I, args[0], st)
+        return Adt("Discriminant", None, [I.discriminant(v)])
+
     @reg("ToString::to_string")
     def to_string(I, st, args, info):
         v = deref_all(I, args[0], st)
@@ -542,6 +571,80 @@ def register(I):
     def chars(I, st, args, info):
         return IterV(as_str_items(I, args[0], st))
 
+    @reg("<impl str>::escape_default", "<impl str>::escape_debug")
+    def str_escape(I, st, args, info):
+        """the escaped text itself (its Display / to_string / collect); exact on ASCII, opaque beyond for symbolic characters"""
+        from .fmtmodel import escape_debug_char, AltSeq, expand_alts
+        dbg = info.path.last() == "escape_debug"
+        out = []
+        for c in as_str_items(I, args[0], st):
+            if isinstance(c, Seg):
+                raise Unsupported("escape of formatted text")
+            if isinstance(c, int):
+                if dbg:
+                    out.extend(escape_debug_char(c, 34) if c != 39 else [92, 39])
+                elif c in (9, 10, 13):
+                    out.extend([92, {9: 116, 10: 110, 13: 114}[c]])
+                elif c in (34, 39, 92):
+                    out.extend([92, c])
+                elif 32 <= c <= 126:
+                    out.append(c)
+                else:
+                    out.extend(ord(x) for x in "\\u{%x}" % c)
+                continue
+            quote3 = z3.Or(c == 34, c == 39, c == 92)
+            plain = z3.And(z3.UGE(c, 32), z3.ULE(c, 126), z3.Not(quote3))
+            other = z3.And(z3.Not(plain), z3.Not(quote3), c != 9, c != 10, c != 13)
+            alts = [(quote3, [92, c]), (c == 9, [92, 116]), (c == 10, [92, 110]), (c == 13, [92, 114]), (plain, [c])]
+            if dbg:
+                # escape_debug keeps printable non-ASCII text: not modelled for symbolic characters
+                alts.append((z3.And(other, z3.ULT(c, 128)), [92, 117, 123, Seg("lower_hex", c, (None, False, False)), 125]))
+                alts.append((z3.UGE(c, 128), [Seg("dbgchar", c)]))
+            else:
+                alts.append((other, [92, 117, 123, Seg("lower_hex", c, (None, False, False)), 125]))
+            out.append(AltSeq(alts))
+        if any(isinstance(x, AltSeq) for x in out):
+            alts = [(g, StringV(o)) for g, o in expand_alts(out) if I.feasible(st.pc, g)]
+            return merge_many(alts)
+        return StringV(out)
+
+    @reg("String::truncate")
+    def string_truncate(I, st, args, info):
+        r = args[0]
+        cur = I.read_ref(r, st)
+        if isinstance(cur, Union):
+            raise Unsupported("String::truncate on a union")
+        items = tuple(cur.items)
+        n = args[1]
+        total = byte_len_of(items)
+        if isinstance(n, int) and isinstance(total, int):
+            if n >= total:
+                return ()
+        bounds, bad = char_boundaries(I, st, items, n)
+        outs = []
+        # new_len beyond the length: no effect
+        beyond = False
+        if not (isinstance(n, int) and isinstance(total, int)):
+            tt = total.term() if isinstance(total, ByteLen) else z3.BitVecVal(total, 64)
+            nn = n.term() if isinstance(n, ByteLen) else (z3.BitVecVal(n, 64) if isinstance(n, int) else n)
+            beyond = z3.UGT(nn, tt)
+        for g, k in bounds:
+            s2 = st.fork(g) if g is not True else st.fork(True)
+            I.write_cell(r.key, r.path, StringV(items[:k]), s2)
+            outs.append((s2, ()))
+        if beyond is not False and I.feasible(st.pc, beyond):
+            outs.append((st.fork(beyond), ()))
+            bad = b_and(bad, b_not(beyond))
+        if bad is not False and I.feasible(st.pc, bad):
+            outs.append((st.fork(bad), Panic("assertion failed: self.is_char_boundary(new_len)", "alloc::string::String::truncate")))
+        return outs
+
+    @reg("<impl str>::is_char_boundary")
+    def str_is_char_boundary(I, st, args, info):
+        items = tuple(as_str_items(I, args[0], st))
+        bounds, bad = char_boundaries(I, st, items, args[1])
+        return b_or(*[g for g, _ in bounds])
+
     @reg("<impl str>::bytes")
     def str_bytes(I, st, args, info):
         out = []
@@ -689,6 +792,8 @@ def register(I):
         else:
             items = tuple(as_str_items(I, v, st))
             buf, base, n = SymBuf(items, name="owned"), 0, len(items)
+        if "RangeFull" in (info.path.text or ""):
+            return StrSlice(buf, base, base + n)
         if not isinstance(rng, Struct) or rng.ty not in ("RangeTo", "RangeFrom", "Range", "RangeFull"):
             raise Unsupported("str index with %r" % (rng,))
         if rng.ty == "RangeFull":
@@ -733,6 +838,8 @@ def register(I):
                     bad = b_or(bad, b_and(g, b2))
                 return res, bad
             return [(x == z3.BitVecVal(k, x.size()), k) for k in range(n + 1)], z3.UGT(x, z3.BitVecVal(n, x.size()))
+        if "RangeFull" in (info.path.text or "") or (isinstance(rng, (Adt, Struct)) and getattr(rng, "ty", "") == "RangeFull"):
+            return base
         if not isinstance(rng, Struct):
             # a single element
             if isinstance(rng, int):
@@ -1839,6 +1946,24 @@ def register(I):
     @reg("NonZero::get")
     def nonzero_get(I, st, args, info):
         return umap(lambda x: x.fields[0], deref_all(I, args[0], st))
+
+    @reg("Option::unwrap_or_default", "Result::unwrap_or_default")
+    def unwrap_or_default(I, st, args, info):
+        dt = _interp.short_type(info.dest_type() or "")
+
+        def dflt():
+            if dt == "String":
+                return StringV(())
+            if dt.startswith("Vec<"):
+                return VecV(())
+            if dt in _interp.INT_TYPES:
+                return 0
+            if dt == "bool":
+                return False
+            if dt.startswith("Option<"):
+                return OPT_NONE
+            raise Unsupported("unwrap_or_default for " + dt)
+        return merge_many([(g, x.fields[0] if x.variant in ("Some", "Ok") else dflt()) for g, x in alts_of(args[0])])
 
     @reg("Option::filter")
     def opt_filter(I, st, args, info):
